@@ -678,6 +678,13 @@ fn parse_comment_attrs(attrs: &[Attribute]) -> Vec<String> {
             }
             _ => None,
         })
+        // A block doc comment or `#[doc = ".."]` can span several lines; every backend
+        // writes one comment line per entry.
+        .flat_map(|doc| {
+            doc.split('\n')
+                .map(|line| line.trim_end_matches('\r').to_owned())
+                .collect::<Vec<_>>()
+        })
         .collect()
 }
 
